@@ -94,10 +94,19 @@ def dump_once(case, root, tag):
     for i, nrows in enumerate(shape, start=1):
         srcs.append([dict(a=k, b=('x%d' % k if text == 'ascii' else u'é\U0001F600%d' % k)) for k in range(1, nrows + 1)])
     from ..common import tuple_source
+    drops = bool(case.get('drops')) and case['incoming'] in ('fresh', 'package_totals')      # (an earlier dumper in the flow would raise on the row)
+    if drops:
+        # one row per non-empty resource that the dumper's own validator (on_error=drop) throws away: it is not written, so it is not counted
+        for rows in srcs:
+            if rows:
+                rows.insert(1, dict(a='not-a-number', b='dropped'))
     src = tuple_source([('res%d' % (i + 1), [('a', 'integer'), ('b', 'string')], rows) for i, rows in enumerate(srcs)])
     out = os.path.join(root, tag)
     opts = dict(format=case['format'], counters=copy.deepcopy(COUNTERS[case['counters']]), add_filehash_to_path=case['filehash'],
                 pretty_descriptor=case['pretty'])
+    if drops:
+        from dataflows.base.schema_validator import drop
+        opts['validator_options'] = dict(on_error=drop)
     if case['target'] == 'path':
         dumper = DF.dump_to_path(out, **opts)
     else:
@@ -232,7 +241,7 @@ def run():
         # keep every counters x incoming x filehash x target combination at least once
         seen, keep = set(), []
         for c in cases:
-            k = (c['counters'], c['incoming'], c['filehash'], c['target'], c['format'])
+            k = (c['counters'], c['incoming'], c['filehash'], c['target'], c['format'], c.get('drops') and c['incoming'] in ('fresh', 'package_totals'))
             if k not in seen:
                 seen.add(k)
                 keep.append(c)
@@ -274,7 +283,7 @@ def run():
         elif not v['ModelEq']:
             rep.model_drift('recorded counters differ from DumpStats.tla although every C09 clause holds', c)
     rep.sample(dict(case=cases[0], recorded=recs[0]))
-    rep.notes['cases_total_enumerated_by_tlc'] = 8192
+    rep.notes['cases_total_enumerated_by_tlc'] = 16384
     rep.assumptions += ['the harness measures size, md5 and data-row count of every written file itself (csv.reader / json.loads)',
                         'a counter that is enabled but absent from the written descriptor counts as not describing the bytes']
     return rep.finish(exhaustive=(t == 'thorough'))
